@@ -267,10 +267,11 @@ def run_e2e(code, curt, size, authic, ki, memos, sched):
     batches = []
     for b in sched:
         bb = []
-        for mi, gi in b:
+        for item in b:
+            mi, gi = item[0], item[1]
             if mi < len(rends) and rends[mi][0] == "grams" and len(rends[mi]) > 1:
                 gs = rends[mi][1:]
-                bb.append((gs[gi % len(gs)], memos[mi][2]))
+                bb.append((gs[gi % len(gs)], item[2] if len(item) > 2 else memos[mi][2]))
         batches.append(bb)
     r = TM(echoic=True, authic=authic, keep=keep())
     r.reopen()
@@ -344,7 +345,7 @@ def ref_parse(d):
         oz = bz + nz + mz + vz + az
         if len(d) < oz:
             return None
-        conv = (lambda b: base64.urlsafe_b64encode(b).decode()) if curt else (lambda b: b.decode("ascii"))
+        conv = (lambda b: base64.urlsafe_b64encode(b).decode()) if curt else (lambda b: b.decode("utf-8"))   # mid / vid only need to be text
         if curt:
             num = int.from_bytes(d[bz:bz + nz], "big")
         else:
